@@ -217,8 +217,9 @@ OPTS = ['gf', 'gf_separator', 'gf_terminals', 'mark_heads_marking',
 def check_get_label(ctx, rng, subset=None):
     T = ctx.R.trees
     is_cons = rng.random() < 0.6
-    label = rng.choice(CATS)
-    edge = rng.choice(['--', 'HD', 'SB', 'OA', 'NK', 'MO'])
+    label = rng.choice(CATS + ["''", "N'", "X''", "'", 'A*', '*', 'A,B', 'P+D',
+                               'R-SIMPX', 'A#B', '1N', 'VROOT', '@NX'])
+    edge = rng.choice(['--', 'HD', 'SB', 'OA', 'NK', 'MO', 'A-B', "H'"])
     head = rng.choice([True, False])
     split = rng.choice([True, False])
     block = rng.randint(1, 4)
